@@ -45,7 +45,13 @@ class D:
 
 
 def _mk_family(sqrt, exp, tk, normk, ncscale):
-    class StubMath:
+    class _StubMathMeta(type):
+        # anything the stand-in does not replace (copysign, fabs, isfinite, pi, …) is the real `math`: code that starts
+        # using another function of the module must not fail in exact mode for that reason alone
+        def __getattr__(cls, name):
+            return getattr(math, name)
+
+    class StubMath(metaclass=_StubMathMeta):
         pass
     StubMath.sqrt = staticmethod(lambda x: sqrt(F(x)))
     StubMath.exp = staticmethod(lambda x: exp(F(x)))
